@@ -462,5 +462,234 @@ theorem fixed_rate (es : List PriceEntry) (txns : List Txn) (tgt : String) (lk :
   · exact fixedCache_spec (loadDb es) (loadDb_sorted es) _ tgt none src hsrc
   · exact fixedCache_spec (loadDb es) (loadDb_sorted es) _ tgt (some g) src hsrc
 
+/-! ## 6. txn-time lookup: the real binary search -/
+
+/-- inside the cache of one commodity the comparator of `binary_search_by_key` compares instants -/
+theorem cmpKey_same (e : PriceEntry) (k : Int) (comm : String) (h : e.base = comm) :
+    (cmpKey e k comm = .gt ↔ k < e.ns) ∧ (cmpKey e k comm = .eq ↔ e.ns = k) ∧
+      (cmpKey e k comm = .lt ↔ e.ns < k) := by
+  subst h
+  unfold cmpKey
+  have := String.lt_irrefl e.base
+  grind
+
+/-- loop invariant of `binary_search_by`: everything left of `base` is ≤ k, `l[base] ≤ k` unless `base` is
+    still 0, everything from `base + size` on is > k -/
+theorem bsLoop_spec (l : List PriceEntry) (k : Int) (comm : String)
+    (hs : ∀ i j, i < j → j < l.length → l[i]!.ns < l[j]!.ns)
+    (hb : ∀ i, i < l.length → l[i]!.base = comm) :
+    ∀ fuel base size, size ≤ fuel → 0 < size → base + size ≤ l.length →
+      (∀ i, i < base → l[i]!.ns ≤ k) → (0 < base → l[base]!.ns ≤ k) →
+      (∀ j, base + size ≤ j → j < l.length → k < l[j]!.ns) →
+      bsLoop l k comm fuel base size < l.length ∧
+      (∀ i, i < bsLoop l k comm fuel base size → l[i]!.ns ≤ k) ∧
+      (0 < bsLoop l k comm fuel base size → l[bsLoop l k comm fuel base size]!.ns ≤ k) ∧
+      (∀ j, bsLoop l k comm fuel base size < j → j < l.length → k < l[j]!.ns) := by
+  intro fuel
+  induction fuel with
+  | zero => intro base size h1 h2; omega
+  | succ fuel ih =>
+    intro base size hf hpos hbd hleft hbase hright
+    unfold bsLoop
+    by_cases h1 : size ≤ 1
+    · simp only [h1, if_true]
+      have : size = 1 := by omega
+      subst this
+      exact ⟨by omega, hleft, hbase, fun j hj hj2 => hright j (by omega) hj2⟩
+    · simp only [h1, if_false]
+      have hhalf : 0 < size / 2 := Nat.div_pos (by omega) (by decide)
+      have hhalf2 : size / 2 < size := Nat.div_lt_self (by omega) (by decide)
+      have hmidlt : base + size / 2 < l.length := by omega
+      have hc := cmpKey_same l[base + size / 2]! k comm (hb _ hmidlt)
+      by_cases hgt : cmpKey l[base + size / 2]! k comm = .gt
+      · simp only [hgt, if_true]
+        have hgt' : k < l[base + size / 2]!.ns := hc.1.mp hgt
+        apply ih base (size - size / 2) (by omega) (by omega) (by omega) hleft hbase
+        intro j hj hj2
+        by_cases hj3 : base + size ≤ j
+        · exact hright j hj3 hj2
+        · rcases Nat.lt_or_ge (base + size / 2) j with hlt | hge
+          · have := hs (base + size / 2) j hlt hj2; omega
+          · have : j = base + size / 2 := by omega
+            subst this; exact hgt'
+      · simp only [hgt, if_false]
+        have hle : l[base + size / 2]!.ns ≤ k := by
+          have : ¬ k < l[base + size / 2]!.ns := fun h => hgt (hc.1.mpr h)
+          omega
+        apply ih (base + size / 2) (size - size / 2) (by omega) (by omega) (by omega)
+        · intro i hi
+          have := hs i (base + size / 2) hi hmidlt; omega
+        · intro _; exact hle
+        · intro j hj hj2; exact hright j (by omega) hj2
+
+/-- the index used by `convert_prices_inner` (`Ok(i) => Some(i)`, `Err(i) => i.checked_sub(1)`) is the
+    latest entry at or before `k`; `None` iff every entry is later -/
+theorem searchIdx_spec (l : List PriceEntry) (k : Int) (comm : String)
+    (hs : ∀ i j, i < j → j < l.length → l[i]!.ns < l[j]!.ns)
+    (hb : ∀ i, i < l.length → l[i]!.base = comm) :
+    match searchIdx l k comm with
+    | some i => i < l.length ∧ l[i]!.ns ≤ k ∧ ∀ j, i < j → j < l.length → k < l[j]!.ns
+    | none => ∀ j, j < l.length → k < l[j]!.ns := by
+  unfold searchIdx binarySearch
+  by_cases h0 : l.length = 0
+  · simp [h0]
+  · simp only [h0, if_false]
+    have hspec := bsLoop_spec l k comm hs hb l.length 0 l.length (Nat.le_refl _) (by omega) (by omega)
+      (fun i hi => by omega) (fun h => by omega) (fun j hj hj2 => by omega)
+    generalize bsLoop l k comm l.length 0 l.length = b at hspec
+    obtain ⟨hbl, hleft, hbase, hright⟩ := hspec
+    have hc := cmpKey_same l[b]! k comm (hb b hbl)
+    by_cases heq : cmpKey l[b]! k comm = .eq
+    · simp only [heq, if_true]
+      have := hc.2.1.mp heq
+      exact ⟨hbl, by omega, hright⟩
+    · simp only [heq, if_false]
+      by_cases hlt : cmpKey l[b]! k comm = .lt
+      · simp only [hlt, if_true]
+        have := hc.2.2.mp hlt
+        have hne : ¬ (b + 1 = 0) := by omega
+        simp only [hne, if_false, Nat.add_sub_cancel]
+        exact ⟨hbl, by omega, hright⟩
+      · simp only [hlt, if_false]
+        have hgt : k < l[b]!.ns := by
+          have h1 : ¬ l[b]!.ns = k := fun h => heq (hc.2.1.mpr h)
+          have h2 : ¬ l[b]!.ns < k := fun h => hlt (hc.2.2.mpr h)
+          omega
+        by_cases hb0 : b = 0
+        · simp only [hb0, if_true]
+          intro j hj
+          rcases Nat.eq_zero_or_pos j with h | h
+          · subst h; subst hb0; exact hgt
+          · subst hb0; exact hright j h hj
+        · have hbpos : 0 < b := by omega
+          exact absurd (hbase hbpos) (by omega)
+
+/-- on a loaded db the stable re-sort by time of one pair's entries changes nothing -/
+theorem commCache_eq (db : List PriceEntry) (hs : db.Pairwise keyLt) (comm tgt : String) :
+    commCache comm tgt db = db.filter (fun e => comm == e.base && e.target == tgt) := by
+  unfold commCache
+  apply List.mergeSort_of_pairwise
+  have := hs.sublist (List.filter_sublist (p := fun e => comm == e.base && e.target == tgt))
+  exact this.imp (fun {a b} h => by simpa using keyLt_ns_le a b h)
+
+theorem mapGet_foldl_timed (tgt : String) (db : List PriceEntry) :
+    ∀ (used : List String) (m : List (String × List PriceEntry)) (k : String),
+    mapGet (used.foldl (fun m comm => if (commCache comm tgt db).isEmpty then m
+        else mapInsert m comm (commCache comm tgt db)) m) k =
+      if k ∈ used ∧ (commCache k tgt db).isEmpty = false then some (commCache k tgt db) else mapGet m k := by
+  intro used
+  induction used with
+  | nil => intro m k; simp
+  | cons a t ih =>
+    intro m k
+    simp only [List.foldl_cons, ih, List.mem_cons]
+    by_cases hkt : k ∈ t ∧ (commCache k tgt db).isEmpty = false
+    · have : (k = a ∨ k ∈ t) ∧ (commCache k tgt db).isEmpty = false := ⟨Or.inr hkt.1, hkt.2⟩
+      rw [if_pos hkt, if_pos this]
+    · rw [if_neg hkt]
+      by_cases hka : k = a
+      · subst hka
+        cases he : (commCache k tgt db).isEmpty with
+        | true => simp
+        | false => simp [mapGet_insert]
+      · have hne : ¬ ((k = a ∨ k ∈ t) ∧ (commCache k tgt db).isEmpty = false) := by
+          rintro ⟨h | h, h2⟩
+          · exact hka h
+          · exact hkt ⟨h, h2⟩
+        simp only [hne, if_false]
+        split
+        · rfl
+        · simp [mapGet_insert, hka]
+
+/-- the entry the timed cache yields for a commodity at instant `ns` (cache hit, then binary search) -/
+def timedEntry (m : List (String × List PriceEntry)) (ns : Int) (src : String) : Option PriceEntry :=
+  match mapGet m src with
+  | some cc =>
+    match searchIdx cc ns src with
+    | some i => some cc[i]!
+    | none => none
+  | none => none
+
+theorem timedCache_spec (db : List PriceEntry) (hs : db.Pairwise keyLt) (used : List String) (tgt : String)
+    (src : String) (hu : src ∈ used) (ns : Int) :
+    RateAt db src tgt (fun n => n ≤ ns) (timedEntry (timedCache used tgt db) ns src) := by
+  unfold timedEntry timedCache
+  rw [mapGet_foldl_timed, commCache_eq db hs]
+  generalize hC : db.filter (fun e => src == e.base && e.target == tgt) = C
+  have hmemC : ∀ e, e ∈ C ↔ e ∈ db ∧ e.base = src ∧ e.target = tgt := by
+    intro e
+    rw [← hC, List.mem_filter]
+    simp only [Bool.and_eq_true, beq_iff_eq]
+    constructor
+    · rintro ⟨hm, hb, ht⟩; exact ⟨hm, hb.symm, ht⟩
+    · rintro ⟨hm, hb, ht⟩; exact ⟨hm, hb.symm, ht⟩
+  have hCs : C.Pairwise keyLt := by rw [← hC]; exact hs.sublist List.filter_sublist
+  have hget : ∀ i (h : i < C.length), C[i]! = C[i] := fun i h => getElem!_pos C i h
+  have hidx : ∀ i j, i < j → j < C.length → C[i]!.ns < C[j]!.ns := by
+    intro i j hij hj
+    have hi : i < C.length := by omega
+    rw [hget i hi, hget j hj]
+    have hlt := (List.pairwise_iff_getElem.mp hCs) i j hi hj hij
+    have h1 := (hmemC C[i]).mp (List.getElem_mem hi)
+    have h2 := (hmemC C[j]).mp (List.getElem_mem hj)
+    exact keyLt_same_pair _ _ (by rw [h1.2.1, h2.2.1]) (by rw [h1.2.2, h2.2.2]) hlt
+  have hbase : ∀ i, i < C.length → C[i]!.base = src := by
+    intro i hi; rw [hget i hi]; exact ((hmemC C[i]).mp (List.getElem_mem hi)).2.1
+  cases hemp : C.isEmpty with
+  | true =>
+    have : C = [] := by simpa using hemp
+    simp only [hu, true_and, Bool.true_eq_false, if_false, mapGet]
+    intro e' he' hb ht _
+    have : e' ∈ C := (hmemC e').mpr ⟨he', hb, ht⟩
+    simp_all
+  | false =>
+    simp only [hu, true_and, if_true]
+    have hsp := searchIdx_spec C ns src hidx hbase
+    cases hsi : searchIdx C ns src with
+    | none =>
+      rw [hsi] at hsp
+      simp only
+      intro e' he' hb ht hp
+      obtain ⟨j, hj, rfl⟩ := List.mem_iff_getElem.mp ((hmemC e').mpr ⟨he', hb, ht⟩)
+      have := hsp j hj
+      rw [hget j hj] at this
+      omega
+    | some i =>
+      rw [hsi] at hsp
+      obtain ⟨hi, hle, hright⟩ := hsp
+      simp only
+      have hm := (hmemC C[i]).mp (List.getElem_mem hi)
+      rw [hget i hi] at hle ⊢
+      refine ⟨hm.1, hm.2.1, hm.2.2, hle, ?_⟩
+      intro e' he' hb ht hp
+      obtain ⟨j, hj, rfl⟩ := List.mem_iff_getElem.mp ((hmemC e').mpr ⟨he', hb, ht⟩)
+      rcases Nat.lt_trichotomy j i with hji | hji | hji
+      · have := hidx j i hji hi
+        rw [hget j hj, hget i hi] at this; omega
+      · subst hji; exact Int.le_refl _
+      · have := hright j hji hj
+        rw [hget j hj] at this
+        omega
+
+theorem timedCache_unused (db : List PriceEntry) (used : List String) (tgt : String) (src : String)
+    (hu : src ∉ used) : mapGet (timedCache used tgt db) src = none := by
+  unfold timedCache
+  rw [mapGet_foldl_timed]
+  simp [hu, mapGet]
+
+def ctxTimedEntry (ctx : Ctx) (ns : Int) (src : String) : Option PriceEntry :=
+  match ctx.cache with
+  | .timed m => timedEntry m ns src
+  | .fixed _ => none
+
+/-- **timed_rate**: under `txn-time` the entry found by the binary search of `convert_prices_inner` for a
+    posting in commodity `src` of a transaction at instant `ns` is the entry `src → tgt` with the greatest
+    instant at or before `ns` -/
+theorem timed_rate (es : List PriceEntry) (txns : List Txn) (tgt : String) (src : String)
+    (hsrc : src ∈ usedCommodities txns tgt) (ns : Int) :
+    RateAt (loadDb es) src tgt (lookupPred .txnTime ns)
+      (ctxTimedEntry (makeCtx .txnTime txns (some tgt) (loadDb es)) ns src) :=
+  timedCache_spec (loadDb es) (loadDb_sorted es) _ tgt src hsrc ns
+
 end C07
 end Tackler
